@@ -90,7 +90,18 @@ fn long_string_value(token: &LuaSyntaxToken) -> Result<String, LuaParseError> {
         }
     }
 
-    let content = &text[i..(text.len() - equal_num - 2)];
+    // an unterminated long string does not end with its closing bracket: the computed end may
+    // lie before the content start or inside a multi-byte character
+    let Some(content) = text.get(i..(text.len() - equal_num - 2)) else {
+        return Err(LuaParseError::new(
+            LuaParseErrorKind::SyntaxError,
+            &t!(
+                "Invalid long string end, expected '%{eq}]'",
+                eq = "=".repeat(equal_num)
+            ),
+            range,
+        ));
+    };
 
     Ok(content.to_string())
 }
